@@ -519,7 +519,7 @@ def conv_cfg(rng, local=False, rank=None, mode=None, ksize=None, strides=None, k
   return dict(local=local, rank=rank, batch=() if plain and rng.random() < 0.5 else batch_shape(rng), spatial=tuple(spatial), cin=g * cig,
               features=g * cog, groups=g, kernel_size=ksize[0] if rank == 1 and rng.random() < 0.4 else tuple(ksize),
               strides=_spec(rng, strides), padding=padding, input_dilation=_spec(rng, idil), kernel_dilation=_spec(rng, kdil),
-              use_bias=rng.random() < 0.7, mask=rng.random() < 0.25, xdt=xdt, pdt=pdt, dt=dt)
+              use_bias=rng.random() < 0.7, mask=rng.random() < 0.35, xdt=xdt, pdt=pdt, dt=dt)
 
 
 def gen_conv(rng):
@@ -541,7 +541,8 @@ def run_conv(ctx, c, npr):
                                          c['kernel_dilation'], c['groups'], c['local'])
   K = vals(npr, kshape, 1.0)
   B = vals(npr, bshape, 1.0) if c['use_bias'] else None
-  M = npr.integers(0, 2, size=kshape).astype(np.float64) if c['mask'] else None
+  # masks are multiplied into the kernel: not only 0/1 patterns but any weights (powers of two keep every product exact)
+  M = (npr.integers(0, 2, size=kshape).astype(np.float64) if npr.random() < 0.5 else npr.choice([0.0, 0.5, 1.0, 2.0, -1.0], size=kshape)) if c['mask'] else None
   cdt = c['dt'] or L().promote(c['xdt'], c['pdt'])
   xj = J(x, c['xdt'])
   ci = const_init()
@@ -607,7 +608,7 @@ def gen_conv_transpose(rng):
   return dict(rank=rank, batch=batch_shape(rng), spatial=tuple(spatial), cin=rng.randint(1, 3), features=rng.randint(1, 3),
               kernel_size=ksize[0] if rank == 1 and rng.random() < 0.4 else tuple(ksize), strides=_spec(rng, strides),
               padding=padding, kernel_dilation=_spec(rng, kdil), transpose_kernel=rng.random() < 0.5,
-              use_bias=rng.random() < 0.7, mask=rng.random() < 0.25, xdt=xdt, pdt=pdt, dt=dt)
+              use_bias=rng.random() < 0.7, mask=rng.random() < 0.35, xdt=xdt, pdt=pdt, dt=dt)
 
 
 def run_conv_transpose(ctx, c, npr):
@@ -620,7 +621,8 @@ def run_conv_transpose(ctx, c, npr):
   kshape = ks + ((c['features'], c['cin']) if tk else (c['cin'], c['features']))
   K = vals(npr, kshape, 1.0)
   B = vals(npr, (c['features'],), 1.0) if c['use_bias'] else None
-  M = npr.integers(0, 2, size=kshape).astype(np.float64) if c['mask'] else None
+  # masks are multiplied into the kernel: not only 0/1 patterns but any weights (powers of two keep every product exact)
+  M = (npr.integers(0, 2, size=kshape).astype(np.float64) if npr.random() < 0.5 else npr.choice([0.0, 0.5, 1.0, 2.0, -1.0], size=kshape)) if c['mask'] else None
   cdt = c['dt'] or L().promote(c['xdt'], c['pdt'])
   xj = J(x, c['xdt'])
   ci = const_init()
